@@ -102,6 +102,8 @@ def correspond(ctx):
             ctx.corr["samples"].append({"case": c["name"], "shape": c["shape"], "entries_nonzero_in_model": nz[0],
                                         "first_impl_entry": c["impl"][0], "k": c["k"]})
         if fails[0]:
+            ctx.c06_focus = getattr(ctx, "c06_focus", []) + [
+                {"mesh": c["mesh"], "kw": c["kw"], "op": c["op"], "k": c["kfloat"], "case": c["name"]}]
             ctx.corr["disagreements"] += len(fails[0])
             nr, nc = c["shape"]
             ctx.problem("correspondence", "dense %s matrix of bempp-cl differs from the model on %s at entries %s"
@@ -117,7 +119,10 @@ def correspond(ctx):
 def search(ctx, strength):
     if strength == "thorough" and ctx.tier != "thorough":
         strength = "escalated"      # something broke in a quick run: all thorough configurations, Python bodies only
-    res = ab.finish_search(ctx, "c06_impl.py", {"mode": "search", "strength": strength, "seed": ctx.seed})
+    payload = {"mode": "search", "strength": strength, "seed": ctx.seed}
+    if getattr(ctx, "c06_focus", None):
+        payload["focus"] = ctx.c06_focus      # evaluate the identities on exactly the disagreeing configurations
+    res = ab.finish_search(ctx, "c06_impl.py", payload)
     ab.report_search(ctx, res)
 
 
